@@ -22,37 +22,70 @@ type checker struct {
 	cfg     *lib.Config
 	res     *lib.Result
 	verbose bool
-	jf      *lib.CasesFile // event tree -> writer tokens, validity, reader events
-	rf      *lib.CasesFile // JSON text (tokens) -> validity, reader events
-	sf      *lib.CasesFile // scalar oracles: float class, integer text -> float, UTF-8 coercion
-	pf      *lib.CasesFile // protobuf: values, event trees, collector
+	jf      *shards // event tree -> writer tokens, validity, reader events
+	rf      *shards // JSON text (tokens) -> validity, reader events
+	sf      *shards // scalar oracles: float class, integer text -> float, UTF-8 coercion
+	pf      *shards // protobuf: values, event trees, collector
 	nViolJ  int
 	nViolP  int
 	nKnown  int
 	seen    int
 }
 
+// shards: a Coq cases file that rolls over into cases_x_2.v, cases_x_3.v, ... (one coqc each, run in
+// parallel by the driver) so that no single file holds more than maxCasesPerFile cases
+const maxCasesPerFile = 1500
+
+type shards struct {
+	name  string
+	typ   string
+	obl   map[string]string
+	files []*lib.CasesFile
+}
+
+var caseImports = []string{"Model.Base", "Model.Json", "Model.Pb", "Corr.CorrC11"}
+
+func (s *shards) Add(term string, input interface{}) {
+	if len(s.files) == 0 || len(s.files[len(s.files)-1].Cases) >= maxCasesPerFile {
+		s.files = append(s.files, &lib.CasesFile{Imports: caseImports, Typ: s.typ, Obligations: s.obl})
+	}
+	s.files[len(s.files)-1].Add(term, input)
+}
+
+func (s *shards) WriteAll(dir string) (out []lib.CorrFile) {
+	if len(s.files) == 0 {
+		s.files = append(s.files, &lib.CasesFile{Imports: caseImports, Typ: s.typ, Obligations: s.obl})
+	}
+	for i, f := range s.files {
+		n := s.name
+		if i > 0 {
+			n = fmt.Sprintf("%s_%d", s.name, i+1)
+		}
+		out = append(out, f.WriteTo(dir, n))
+	}
+	return out
+}
+
 func newChecker(cfg *lib.Config, res *lib.Result) *checker {
-	imp := []string{"Model.Base", "Model.Json", "Model.Pb", "Corr.CorrC11"}
 	return &checker{cfg: cfg, res: res,
-		jf: &lib.CasesFile{Imports: imp, Typ: "jcase", Obligations: map[string]string{
+		jf: &shards{name: "cases_json", typ: "jcase", obl: map[string]string{
 			"json_stream":    "json_stream_mismatches cases",
 			"json_valid_rfc": "json_valid_mismatches cases",
 			"json_read":      "json_read_mismatches cases"}},
-		rf: &lib.CasesFile{Imports: imp, Typ: "rcase", Obligations: map[string]string{
+		rf: &shards{name: "cases_reader", typ: "rcase", obl: map[string]string{
 			"reader_valid_rfc": "reader_valid_mismatches cases",
 			"reader_read":      "reader_read_mismatches cases"}},
-		sf: &lib.CasesFile{Imports: imp, Typ: "scase", Obligations: map[string]string{
+		sf: &shards{name: "cases_scalar", typ: "scase", obl: map[string]string{
 			"scalar_oracles": "scalar_mismatches cases"}},
-		pf: &lib.CasesFile{Imports: imp, Typ: "pcase", Obligations: map[string]string{
+		pf: &shards{name: "cases_pb", typ: "pcase", obl: map[string]string{
 			"pb_model": "pb_mismatches cases"}},
 	}
 }
 
 func (c *checker) finish() {
-	c.res.CorrFiles = append(c.res.CorrFiles,
-		c.jf.WriteTo(c.cfg.Out, "cases_json"), c.rf.WriteTo(c.cfg.Out, "cases_reader"),
-		c.sf.WriteTo(c.cfg.Out, "cases_scalar"), c.pf.WriteTo(c.cfg.Out, "cases_pb"))
+	for _, s := range []*shards{c.jf, c.rf, c.sf, c.pf} {
+		c.res.CorrFiles = append(c.res.CorrFiles, s.WriteAll(c.cfg.Out)...)
+	}
 }
 
 func (c *checker) say(format string, a ...interface{}) {
